@@ -87,6 +87,7 @@ fn target_strategy_any() -> BoxedStrategy<Target> {
         1 => Just(Target::SwapSectors),
         2 => Just(Target::RawByte),
         3 => (0u8..10).prop_map(Target::Cycle),
+        2 => (0u8..7).prop_map(Target::UncoveredRef),
     ]
     .boxed()
 }
@@ -296,6 +297,10 @@ fn deep_tree_inputs(ev: &mut Value) -> Option<Violation> {
 fn fuzz_extra(ctx: &Ctx, ev: &mut Value) -> Option<Violation> {
     if let Some(v) = deep_tree_inputs(ev) {
         return Some(v);
+    }
+    match crate::props::scenarios::huge_length_inputs() {
+        Ok(done) => ev["coverage"]["huge_length_inputs"] = serde_json::json!(done),
+        Err(v) => return Some(v),
     }
     crate::fuzzrun::campaign(ctx, ev, "C05", "fz_read", false, solo)
 }
